@@ -174,7 +174,7 @@ def gen_config(ch, bias=None):
     code = ch.choice('cfg.variant', codes)
     cfg['variant'] = code
     maxp = PREDEFINED[code][2] if code in PREDEFINED else {
-        'XHE': 9, 'X5S': 8, 'X5D': 6, 'XGRK': 9, 'XKUHN': 2, 'XA5': 6, 'XO5': 6, 'XSHL': 7, 'XDM': 6}[code]
+        'XHE': 9, 'X5S': 8, 'X5D': 6, 'XGRK': 9, 'XKUHN': 2, 'XA5': 6, 'XO5': 6, 'XSHL': 7, 'XDM': 6, 'XHD': 6}[code]
     maxp = bias.get('max_players_by_variant', {}).get(code, maxp)
     maxp = min(maxp, bias.get('max_players', 9))
     minp = min(bias.get('min_players', 2), maxp)
@@ -260,7 +260,7 @@ def gen_config(ch, bias=None):
     if dm == 'denom' and cfg['chip'] not in ('int', 'fraction'):
         dm = 'default'
     cfg['divmod'] = dm
-    if code in CUSTOM_CODES:
+    if code in CUSTOM_CODES or code == 'XHD':
         cfg['custom'] = gen_custom(ch, code, bias)
     if bias.get('allow_raw_lists'):
         cfg['raw_lists'] = ch.chance('cfg.raw_lists', 1, 3)
@@ -289,6 +289,8 @@ def gen_custom(ch, code, bias):
         c['burns'] = [bool(ch.pick('cfg.x.burn', 2)) for _ in range(6)]
         if code == 'XDM':       # draw game with mixed facings: some hole cards are dealt face up
             c['facings'] = [bool(ch.pick('cfg.x.facing', 2)) for _ in range(5)]
+    elif code == 'XHD':
+        c['burns'] = [bool(ch.pick('cfg.x.burn', 2)) for _ in range(6)]
     elif code == 'XGRK':
         c['burns'] = [True] * 6
     elif code == 'XO5':
@@ -336,6 +338,13 @@ def custom_spec(cfg, autos):
         if code in ('X5D', 'XDM'):
             return Deck.STANDARD, (H.StandardHighHand,), tuple(streets), structure
         return Deck.REGULAR, (H.RegularLowHand,), tuple(streets), structure
+    if code == 'XHD':
+        # NOT a legal street list: the second street prescribes a hole card AND a draw.  The constructor of Street refuses
+        # it; a run on this "variant" ends as an aborted run (refused configuration).  It is in the pool of C10 only, so
+        # that a tree which starts ACCEPTING such a street is also asked to deal it as prescribed.
+        streets = (Street(False, (False, False, False, False), 0, False, Opening.POSITION, bb, cap),
+                   Street(c['burns'][0], (False,), 0, True, Opening.POSITION, big, cap))
+        return Deck.STANDARD, (H.StandardHighHand,), streets, structure
     if code == 'XGRK':
         streets = (Street(False, (False, False), 0, False, Opening.POSITION, bb, cap),
                    Street(True, (), 3, False, Opening.POSITION, bb, cap),
